@@ -13,7 +13,7 @@ def run(ctx, R):
                      'C18.N/M - complete is the negation of incomplete, Missing* only for absent tokens; C18.X - every guarded outcome of the fully inlined '
                      'entry points that is an incomplete verdict must be unsatisfiable together with "the first CR is followed by a byte", decided with the '
                      'token-layout theory of str::splitn (engine/layout.py: token lengths and separator positions add up to the window, the first CR sits at a '
-                     'separator position). On the current tree 11 outcome classes per entry point ARE satisfiable with a closed window - genuine defects '
+                     'separator position). On the current tree 27 classes per entry point (verdict x protocol keyword x exact token count of the window, the token count decided by the solver) ARE satisfiable with a closed window - genuine defects '
                      '(family D6 of DESIGN.md), each confirmed on the real library and listed in known_findings.json by exact key; MissingPrefix, '
                      'MissingProtocol and MissingSourceAddress are proved impossible on a closed window.')
     R.assumptions.append('token-layout axiom of str::splitn (DESIGN.md 4.3) as encoded in engine/layout.py')
